@@ -165,6 +165,15 @@ func vfC23Case(rep *vk.Report, d *vfDB, dbi, qi int, th *Thread) {
 				}
 			}
 		}()
+		if qi%5 == 4 {
+			// every fifth case: an index-aware shape (see zz_verif_qcommon_idxpattern_test.go); its sort, if
+			// any, is left to the order requirements this check imposes itself
+			if iq := vfGenIndexQuery(d, r); iq != nil {
+				root = iq.root
+				rep.Count("index_aware_cases", 1)
+				return
+			}
+		}
 		root = g.gen(1 + r.IntN(4))
 	}()
 	if root == nil {
